@@ -192,3 +192,54 @@ Section StoredWrites.
       (wrote s {| d_buf := put_at (d_buf d) (d_pos d) bs; d_pos := d_pos d + len bs; d_plan := p' |} bs, Ok tt).
   Proof. intros. eapply zw_write_all_fuel_nofail; eauto. Qed.
 End StoredWrites.
+
+(* ---------- unconditional closed forms.  [wr] is what a cursor does with write_all: nothing for an empty slice
+   (not even zero-filling a gap), put_at otherwise. *)
+Definition wr (buf : bytes) (pos : N) (bs : bytes) : bytes := match bs with [] => buf | _ => put_at buf pos bs end.
+
+Lemma wr_app buf pos a b : wr (wr buf pos a) (pos + len a) b = wr buf pos (a ++ b).
+Proof.
+  destruct a as [|x a]; [cbn [wr app len length N.of_nat]; now rewrite N.add_0_r|].
+  destruct b as [|y b]; [cbn [wr]; now rewrite app_nil_r|].
+  cbn [wr app]. change (x :: a ++ y :: b) with ((x :: a) ++ (y :: b)). apply put_at_app.
+Qed.
+
+Lemma dev_write_all_fuel_cf : forall fuel bs d, nofail (d_plan d) -> (length bs < fuel)%nat ->
+  exists p', nofail p' /\
+    dev_write_all_fuel fuel d bs = ({| d_buf := wr (d_buf d) (d_pos d) bs; d_pos := d_pos d + len bs; d_plan := p' |}, Ok tt).
+Proof.
+  induction fuel as [|f IH]; intros bs d Hp Hf; [lia|].
+  destruct bs as [|x bs'] eqn:Eb.
+  - exists (d_plan d). split; [exact Hp|]. cbn [dev_write_all_fuel wr len length N.of_nat]. rewrite N.add_0_r. now destruct d.
+  - rewrite <- Eb in *. assert (Hne : bs <> []) by (rewrite Eb; discriminate).
+    destruct (dev_write_nofail d bs Hp Hne) as (k & p1 & Hw & Hk & Hp1).
+    replace (dev_write_all_fuel (S f) d bs) with
+      (match dev_write d bs with
+       | (d1, Ok k) => if k =? 0 then (d1, Err (EIo KOther IWriteZero)) else dev_write_all_fuel f d1 (drop k bs)
+       | (d1, Err e) => (d1, Err e) | (d1, Panic p) => (d1, Panic p) end) by (rewrite Eb; reflexivity).
+    rewrite Hw. destruct (k =? 0) eqn:Ek; [apply N.eqb_eq in Ek; lia|].
+    set (d1 := {| d_buf := put_at (d_buf d) (d_pos d) (take k bs); d_pos := d_pos d + k; d_plan := p1 |}).
+    assert (Hlt : len (take k bs) = k) by (rewrite len_take; lia).
+    destruct (IH (drop k bs) d1) as (p' & Hp' & Hr); [exact Hp1|pose proof (len_drop k bs) as Hd; unfold len in *; lia|].
+    exists p'. split; [exact Hp'|]. rewrite Hr. unfold d1. cbn [d_buf d_pos].
+    assert (Hput : put_at (d_buf d) (d_pos d) (take k bs) = wr (d_buf d) (d_pos d) (take k bs)).
+    { destruct (take k bs) eqn:Et; [cbn [len length N.of_nat] in Hlt; lia|reflexivity]. }
+    rewrite Hput. rewrite <- Hlt at 2. rewrite wr_app, take_drop, len_drop. do 2 f_equal. lia.
+Qed.
+
+Lemma dev_write_all_cf d bs : nofail (d_plan d) ->
+  exists p', nofail p' /\
+    dev_write_all d bs = ({| d_buf := wr (d_buf d) (d_pos d) bs; d_pos := d_pos d + len bs; d_plan := p' |}, Ok tt).
+Proof. intro H. apply dev_write_all_fuel_cf; [exact H|lia]. Qed.
+
+Lemma dev_write_chunks_cf : forall cs d, nofail (d_plan d) ->
+  exists p', nofail p' /\
+    dev_write_chunks d cs = ({| d_buf := wr (d_buf d) (d_pos d) (concat cs); d_pos := d_pos d + len (concat cs); d_plan := p' |}, Ok tt).
+Proof.
+  induction cs as [|c cs IH]; intros d Hp.
+  - exists (d_plan d). split; [exact Hp|]. cbn [dev_write_chunks concat wr len length N.of_nat]. rewrite N.add_0_r. now destruct d.
+  - cbn [dev_write_chunks concat]. destruct (dev_write_all_cf d c Hp) as (p1 & Hp1 & Hw). rewrite Hw.
+    set (d1 := {| d_buf := wr (d_buf d) (d_pos d) c; d_pos := d_pos d + len c; d_plan := p1 |}).
+    destruct (IH d1 Hp1) as (p' & Hp' & Hr). exists p'. split; [exact Hp'|]. rewrite Hr. unfold d1. cbn [d_buf d_pos].
+    rewrite wr_app, len_app. do 2 f_equal. lia.
+Qed.
